@@ -147,10 +147,10 @@ macro_rules! apply {
     (take_while, $e:expr, $p:expr) => {{ let pp = $p; $e.take_while(move |x| pp.pred(x)) }};
     (fuse, $e:expr, $p:expr) => {{ $e.fuse() }};
     (enumerate, $e:expr, $p:expr) => {{ let pp = $p; $e.enumerate().map(move |(i, x)| pp.ix(i, x)) }};
-    (flatten, $e:expr, $p:expr) => {{ let pp = $p; $e.map(move |x| pp.inner(x)).flatten() }};
+    (flatten, $e:expr, $p:expr) => {{ let pp = $p; $e.map(move |x| pp.inner_fl(x)).flatten() }};
     (fma, $e:expr, $p:expr) => {{ let pp = $p; $e.filter_map_async(move |x| pp.fut(x)) }};
     (fms, $e:expr, $p:expr) => {{ let pp = $p; $e.flat_map_stream(move |x| pp.st(x)) }};
-    (fls, $e:expr, $p:expr) => {{ let pp = $p; $e.map(move |x| pp.st(x)).flatten_stream() }};
+    (fls, $e:expr, $p:expr) => {{ let pp = $p; $e.map(move |x| pp.st_fl(x)).flatten_stream() }};
     (rt, $e:expr, $p:expr) => {{ $e.roundtrip() }};
 }
 
